@@ -141,7 +141,7 @@ PROPS = {
 PROPS["C20"] = dict(
     coq=["Props.C20_cursor", "Props.C20_models", "Props.C15:C20_huffman", "Props.C03_float:C20_float",
          "Props.C10_ans:C10_ans_decode_fits", "Props.C13:C13_decode_no_overflow,C13_encode_no_overflow",
-         "Props.C03_leaky:C03_leaky_step_guard,C10_leaky"],
+         "Props.C03_leaky:C03_leaky_step_guard,C10_leaky", "Props.C20_leaky"],
     fams=[("fam_ans", "gen_free", 150, 5000), ("fam_ans", "gen_stack", 100, 5000),
           ("fam_ansseek", "gen_seek", 100, 4000), ("fam_ansb", "gen_bounded", 60, 3000),
           ("fam_backend", "gen_cursor", 150, 8000), ("fam_backend", "gen_adapter", 60, 3000),
@@ -151,7 +151,8 @@ PROPS["C20"] = dict(
           ("fam_huff", "gen_edge", 30, 1500), ("fam_huff", "gen_overflow", 6, 30),
           ("fam_models", "gen_malformed", 150, 8000), ("fam_models", "gen_valid", 100, 5000),
           ("fam_floatq", "gen_malformed", 80, 4000), ("fam_floatq", "gen_f9", 40, 2000),
-          ("fam_leaky", "gen_step", 50, 4000), ("fam_leaky", "gen_f13", 15, 1000), ("fam_leaky", "gen_new", 40, 3000)],
+          ("fam_leaky", "gen_step", 50, 4000), ("fam_leaky", "gen_f13", 15, 1000), ("fam_leaky", "gen_f16", 40, 3000),
+          ("fam_leaky", "gen_new", 40, 3000)],
     anchors=["src/lib.rs", "src/backends.rs", "src/stream/model/categorical/contiguous.rs",
              "src/stream/model/categorical/non_contiguous.rs", "src/stream/model/categorical/lookup_contiguous.rs",
              "src/stream/model/categorical/lookup_noncontiguous.rs", "src/stream/model/quantize.rs",
@@ -163,7 +164,9 @@ PROPS["C20"] = dict(
                "with a distinct UB_*/overflow result, and theorems show these results unreachable from the safe API: "
                "cursor index sites and usize subtractions (C20_cursor_*), table / lookup / uniform model sites "
                "(C20_models_*), Huffman array sites (C20_huffman_*), non-zero probabilities of the float constructors "
-               "(C20_float_nonzero), no overflow in ANS and chain coder steps, the leaky search's step guard. "
+               "(C20_float_nonzero), non-zero probabilities of the leaky quantiser for EVERY distribution, monotone or not "
+               "(C20_leaky_*, true after the F16 repair), no overflow in ANS and chain coder steps, the leaky search's "
+               "step guard. "
                "What is run: every family's cases in a DEBUG build (overflow checks, debug assertions, std's "
                "unsafe-precondition checks) in a child process; a process abort, an arithmetic panic or a hang anywhere "
                "is a violation.",
